@@ -15,7 +15,7 @@ def bits(x): return struct.unpack("<Q", struct.pack("<d", float(x)))[0]
 def unbits(b): return struct.unpack("<d", struct.pack("<Q", int(b)))[0]
 
 def gen(rng: random.Random, tier: str):
-    n = {"quick": 30, "thorough": 900}[tier]
+    n = {"quick": 30, "thorough": 3000}[tier]
     for k in range(n):
         nu, ni = rng.randint(3, 12), rng.randint(3, 10)
         rows = [[100 + u, 1000 + i, float(rng.choice([0.5, 1, 2, 3, 3.5, 4, 5]))] for u in range(nu) for i in range(ni) if rng.random() < 0.5]
@@ -156,4 +156,4 @@ SPEC = CheckSpec(
               "LK.NormalEqW.C10_NormalEqW_implicit_split", "LK.Funk.C10_FunkSVD_trainFeature_frozen"],
     correspondence_ops=["c10.explicit", "c10.implicit", "c10.funksvd"],
     nontrivial_rule="distinct trainings reaching ≥1 of: explicit / implicit ALS, per-side regularisation, item without data, FunkSVD (clamped range)",
-    budgets={"quick": 30, "thorough": 900}, gen=gen, run=run, shrink=shrink)
+    budgets={"quick": 30, "thorough": 3000}, gen=gen, run=run, shrink=shrink)
